@@ -2,7 +2,7 @@
    their composition (optimize_graph), and the freshness predicates. *)
 From CC Require Import Base.Prelude Base.Scalar Base.Ty Base.Shape Graph.Value Graph.IR Graph.Eval
   Model.Opt Model.Uniquify Proofs.UniquifyProofs Proofs.OptBase Proofs.OptSem Proofs.OptSim Proofs.OptFresh Proofs.OptDangling
-  Proofs.OptDup Proofs.OptConst Proofs.OptMeta.
+  Proofs.OptDup Proofs.OptConst Proofs.OptMeta Proofs.OptMetaSem.
 
 (* ------------------------------------------------------------------ hypothesis-free invariants
    of the duplicate and constant passes: map length, input nodes, fresh nodes *)
@@ -311,4 +311,63 @@ Theorem uniquify_optimize_nodup start nodes o p :
   optimize_graph (fst (uniquify_nodes start nodes)) o = Ok p -> NoDup (prf_ivs (po_nodes p)).
 Proof.
   intros H. eapply optimize_keeps_counters_distinct; eauto. apply uniquify_nodes_nodup.
+Qed.
+
+(* ------------------------------------------------------------------ E (partial): the meta pass
+   preserves values on graphs without ArrayToVector / Zip / A2B / B2A *)
+Definition meta_hyps (nodes : list node) : Prop :=
+  const_typed nodes /\
+  (forall nd x, In nd nodes -> n_op nd = OConstant (TScalar U64) (VArr [x]) -> 0 <= x < 2 ^ 64) /\
+  (forall nd, In nd nodes -> simple_meta (n_op nd) = true) /\
+  meta_typed nodes.
+
+Theorem meta_sem_ok_simple nodes o p :
+  meta_hyps nodes -> opt_meta nodes o = Ok p -> pass_sem_ok nodes p.
+Proof.
+  intros (Ct & Rg & Sm & Ty) H tape vals V tape' Tc. apply eval_graph_nodes_valuation in V.
+  destruct (meta_sem_thm _ _ _ _ _ V Ct Rg Sm Ty H) as (_ & K).
+  destruct (K tape' Tc) as (vals' & V' & S). exists vals'. split; auto. now apply eval_graph_nodes_valuation.
+Qed.
+
+Theorem meta_sem_transport nodes o p tape vals :
+  meta_hyps nodes ->
+  opt_meta nodes o = Ok p ->
+  eval_graph_nodes nodes tape = Ok vals ->
+  exists vals', eval_graph_nodes (po_nodes p) (transport (po_map p) tape) = Ok vals' /\
+                sim nodes (po_nodes p) vals vals' (po_map p) /\
+                (forall x, o = Some x -> 0 <= x < Z.of_nat (length nodes) ->
+                           nth_error (po_map p) (Z.to_nat x) = Some (po_output p)).
+Proof.
+  intros (Ct & Rg & Sm & Ty) H V. pose proof V as V0. apply eval_graph_nodes_valuation in V.
+  destruct (meta_sem_thm _ _ _ _ _ V Ct Rg Sm Ty H) as (F & K).
+  destruct (K _ (transport_compat _ _ _ tape F)) as (vals' & V' & S).
+  exists vals'. split; [now apply eval_graph_nodes_valuation|]. split; auto.
+  now apply meta_struct_thm in H.
+Qed.
+
+(* F with transported tapes: hypotheses on the input graph for the constant pass, and on the two
+   intermediate graphs for the meta pass (meta_hyps) and for de-duplication (typed, no keyed tape
+   operation) *)
+Theorem optimize_sem_transport infer nodes o p tape vals :
+  optimize_graph nodes o = Ok p ->
+  const_typed nodes ->
+  eval_graph_nodes nodes tape = Ok vals ->
+  exists p1 p2 p3 p4,
+    opt_const nodes o = Ok p1 /\ opt_meta (po_nodes p1) (po_output p1) = Ok p2 /\
+    opt_dup (po_nodes p2) (po_output p2) = Ok p3 /\ opt_dangling (po_nodes p3) (po_output p3) = Ok p4 /\
+    (meta_hyps (po_nodes p1) -> typed_nodes infer (po_nodes p2) ->
+     (forall nd deps, In nd (po_nodes p2) -> from_tape (n_op nd) = true -> node_key nd deps = Ok None) ->
+     exists vals', eval_graph_nodes (po_nodes p)
+                     (transport (po_map p4) (transport (po_map p3) (transport (po_map p2) (transport (po_map p1) tape))))
+                   = Ok vals' /\
+                   sim nodes (po_nodes p) vals vals' (po_map p)).
+Proof.
+  intros H Ct V. apply optimize_graph_inv in H as (p1 & p2 & p3 & p4 & E1 & E2 & E3 & E4 & En & Eo & Em).
+  exists p1, p2, p3, p4. repeat split; auto. intros Mh Ty Nk. rewrite En, Em.
+  destruct (const_sem_transport _ _ _ _ _ Ct E1 V) as (v1 & V1 & S1 & _).
+  destruct (meta_sem_transport _ _ _ _ _ Mh E2 V1) as (v2 & V2 & S2 & _).
+  destruct (dup_sem_transport _ _ _ _ _ _ Ty Nk E3 V2) as (v3 & V3 & S3 & _).
+  destruct (opt_dangling_some _ _ _ E4) as (x & Ex). rewrite Ex in E4.
+  destruct (dangling_sem_transport _ _ _ _ _ E4 V3) as (v4 & V4 & S4 & _).
+  exists v4. split; auto. eauto using sim_compose.
 Qed.
